@@ -29,6 +29,14 @@ CHECKS = {
         technique="TLC-enumerated certificate shapes / PEM bundles / serial-extension values (Attest.tla) minted by crypto/x509, differential comparison with crypto/x509.ParseCertificate, ModHex function and injectivity theorems checked by TLC, byte mutations for crash freedom; all recorded calls judged by TLC",
         text="TLC enumerates certificate shapes (key type incl. RSA without the NULL parameter x signature algorithm x extension subsets x clean/trailing data), PEM bundles of 0..5 certificates with leading text / trailing whitespace / garbage, and serial-extension values of length 0..8, with the ModHex function and its injectivity on serial numbers as theorems; every shape is minted with crypto/x509 and parsed by both parsers (field-by-field equality recorded), every ModHex and PEM case executed, ~29 000 byte mutants for crash freedom; TLC judges every recorded call. Exploration level: the agreement with the standard parser is a differential oracle computed by the harness.",
         note="ASN.1 fidelity is a differential oracle in the harness; TLC fixes the verdict class of every shape and computes the expected ModHex string from the recorded octets; shapes are those x509.CreateCertificate can emit"),
+    "C17": dict(engine="signer", design="5/C17 and notes/signer.md", level="model_checking",
+        technique="explicit TLA+ spec (Signer.tla) + TLC exhaustive model checking; exhaustive configuration replay and seeded random reply shapes on the real code via in-package harness over bufconn; TLC trace validation with per-property reporting action constraints",
+        text="TLC checks C17_Step on every configuration of the bounded model (endpoint lists 0..4 over 7 (quick) / 11 (thorough) outcome templates, lists <= 2 over the 16 gRPC status codes; bounded backoff model); every configuration is executed on the real (*Signer).Sign against per-endpoint stub Signing servers (server-side arrivals with request comparison, return values) and the extremes of 200 backoff draws per input class are recorded; every recorded step is validated by TLC against TraceSigner. Model checking fits: the property quantifies over fault vectors, which the bounded model enumerates and the replay binds to the code.",
+        note="endpoint names are IP literals; 'deadline' = no answer within the per-try timeout; Retries fixed to 1 so real backoff sleeps are not executed (the delay function is checked in isolation, its draws come from the code's own time-seeded generator); the upper delay bound is widened by one ulp / 1 ns"),
+    "C18": dict(engine="signer", design="5/C18 and notes/signer.md", level="model_checking",
+        technique="explicit TLA+ spec (Signer.tla) + TLC exhaustive model checking; configuration replay on the real NewSigner/Sign against real TLS gRPC servers over loopback TCP with certificates minted per run; TLC trace validation",
+        text="TLC checks C18_Step on every endpoint list (<= 2 over 27 identity/version/client-certificate-policy templates and <= 3 over 9 identity/version kinds in the quick tier; <= 3 over 27 in the thorough tier) x 4 bundle variants, identities incl. genuine under either bundle file, foreign CA, host-trusted CA outside the bundle, self-signed, expired, wrong name, TLS<=1.1 only; every configuration is executed with a signer from the real NewSigner against real TLS gRPC servers on 127.0.0.1-4; servers record handshake result, negotiated version and the client certificate presented; TLC validates every step.",
+        note="name matching is exercised through IP SANs only (no DNS in the sandbox); the host trust store is controlled through SSL_CERT_FILE/SSL_CERT_DIR set by the harness; Go's TLS and gRPC stacks are trusted for the handshake itself"),
 }
 
 import re, glob
